@@ -55,6 +55,18 @@ fn load(text: &str) -> Result<Rule, &'static str> {
     }
 }
 
+fn from_value_word(text: &str) -> &'static str {
+    match serde_yaml::from_str::<serde_yaml::Value>(text) {
+        Err(_) => "err",
+        Ok(y) => match guarded(|| Rule::from_value(y)) {
+            None => "panic",
+            Some(Err(_)) => "err",
+            Some(Ok(_)) => "ok",
+        },
+    }
+}
+
+#[allow(dead_code)]
 fn load_failed(id: &str, word: &str) -> Out {
     let mut w = begin(id);
     tagged(&mut w, "load", word);
@@ -659,7 +671,14 @@ pub fn case_rt(id: &str, v: &serde_json::Value) -> Option<Out> {
     let (text, docs) = rule_and_docs(v)?;
     let r1 = match load(&text) {
         Ok(r) => r,
-        Err(word) => return Some(load_failed(id, word)),
+        Err(word) => {
+            // from_str rejects the text: what does from_value say about the equivalent value?
+            let mut w = begin(id);
+            tagged(&mut w, "load", word);
+            tagged(&mut w, "fromvalue", from_value_word(&text));
+            w.close();
+            return Some(done(w, id));
+        }
     };
 
     let mut w = begin(id);
@@ -731,15 +750,7 @@ pub fn case_rt(id: &str, v: &serde_json::Value) -> Option<Out> {
     }
 
     // ---- from_value next to from_str -------------------------------------------------------------
-    let fromvalue = match serde_yaml::from_str::<serde_yaml::Value>(&text) {
-        Err(_) => "err",
-        Ok(y) => match guarded(|| Rule::from_value(y)) {
-            None => "panic",
-            Some(Err(_)) => "err",
-            Some(Ok(_)) => "ok",
-        },
-    };
-    tagged(&mut w, "fromvalue", fromvalue);
+    tagged(&mut w, "fromvalue", from_value_word(&text));
 
     w.head("len");
     match &s {
